@@ -194,6 +194,10 @@ def _device_cases(tier, **fixed):
         yield ("raw_2byte", False, v)
     for r, g, b in itertools.product((0, 1, 127, 255), repeat=3):
         yield ("light_rgb", False, (r, g, b))
+        yield ("light_rgb_individual", False, (r, g, b))
+    for r, g, b, w in ((0, 0, 0, 0), (255, 0, 128, 0), (1, 2, 3, 4), (0, 255, 0, 255), (255, 255, 255, 255)):
+        yield ("light_rgbw", False, (r, g, b, w))
+        yield ("light_rgbw_individual", False, (r, g, b, w))
     for v in range(0, 256, 1 if dense else 5):
         yield ("light_tunable_white", False, v)
     for v in (0, 1, 2000, 2700, 4000, 6500, 65535):
@@ -209,7 +213,7 @@ def _device_cases(tier, **fixed):
         yield ("climate_fan_step", False, s_)
 
 
-@standin("C39", cases=_device_cases, kind="enum-native", exhaustive=False, bound="real devices on a real XKNX object (no interface): Switch and Cover (position, angle) plain and inverted, Light brightness / RGB / tunable white / colour temperature / xyY colour, Fan percent, 3-step mode and oscillation, Climate fan speed and swing, Climate setpoint shift and target temperature through a setpoint shift (steps 0.05/0.1/0.125/0.2/0.25/0.5/1.0, every shift of -127..127 steps within +-20 K; as DPT 9.002 every 0.01 K (thorough) or 0.07 K (quick) within +-20 K at steps 0.1/0.5/1.0), NumericValue temperature / percent, RawValue; every 1st (thorough) or 3rd-5th (quick) value of each integer range; the setter's telegrams are processed as outgoing and the reported state compared with the request (equal, or within half a step of the datapoint)")
+@standin("C39", cases=_device_cases, kind="enum-native", exhaustive=False, bound="real devices on a real XKNX object (no interface): Switch and Cover (position, angle) plain and inverted, Light brightness / RGB and RGBW (combined and per-channel addresses, components incl. 0) / tunable white / colour temperature / xyY colour, Fan percent, 3-step mode and oscillation, Climate fan speed and swing, Climate setpoint shift and target temperature through a setpoint shift (steps 0.05/0.1/0.125/0.2/0.25/0.5/1.0, every shift of -127..127 steps within +-20 K; as DPT 9.002 every 0.01 K (thorough) or 0.07 K (quick) within +-20 K at steps 0.1/0.5/1.0), NumericValue temperature / percent, RawValue; every 1st (thorough) or 3rd-5th (quick) value of each integer range; the setter's telegrams are processed as outgoing and the reported state compared with the request (equal, or within half a step of the datapoint)")
 def device_reports_what_was_requested(kind, opt, v):
     from xknx import XKNX
     from xknx.devices import Climate, Cover, Fan, Light, NumericValue, RawValue, Switch
@@ -247,6 +251,24 @@ def device_reports_what_was_requested(kind, opt, v):
             await d.set_color(v)
             assert _drain(xknx) >= 1
             assert d.current_color[0] == v, (kind, v, d.current_color)
+        elif kind == "light_rgb_individual":
+            d = Light(xknx, "l", group_address_switch_red="1/1/4", group_address_brightness_red="1/1/5", group_address_switch_green="1/1/6", group_address_brightness_green="1/1/7", group_address_switch_blue="1/1/8", group_address_brightness_blue="1/1/9")
+            xknx.devices.async_add(d)
+            await d.set_color(v)
+            assert _drain(xknx) == 3
+            assert d.current_color == (v, None), (kind, v, d.current_color)
+        elif kind == "light_rgbw":
+            d = Light(xknx, "l", group_address_switch="1/1/4", group_address_rgbw="1/1/6")
+            xknx.devices.async_add(d)
+            await d.set_color(v[:3], v[3])
+            assert _drain(xknx) >= 1
+            assert d.current_color == (v[:3], v[3]), (kind, v, d.current_color)
+        elif kind == "light_rgbw_individual":
+            d = Light(xknx, "l", group_address_switch_red="1/1/4", group_address_brightness_red="1/1/5", group_address_switch_green="1/1/6", group_address_brightness_green="1/1/7", group_address_switch_blue="1/1/8", group_address_brightness_blue="1/1/9", group_address_switch_white="1/1/10", group_address_brightness_white="1/1/11")
+            xknx.devices.async_add(d)
+            await d.set_color(v[:3], v[3])
+            assert _drain(xknx) == 4
+            assert d.current_color == (v[:3], v[3]), (kind, v, d.current_color)
         elif kind == "fan_percent":
             d = Fan(xknx, "f", group_address_speed="1/1/7")
             xknx.devices.async_add(d)
